@@ -39,12 +39,21 @@ def check(prop, tier, seed, overlay=None, quiet=False, write=True, only=None):
         ix = RepoIndex(overlay=overlay)
         ctx = run_rules(prop, ix, tier, only=only)
         extra = None
+        calib_lines = []
         if tier == 'thorough' and overlay is None and only is None:
+            # self-test of the checker on the sources at hand: planted defects (hand-written overlays + the stored seeded changes) must be
+            # reported, behaviour-preserving edits (overlays + the stored keep patches) must not.  It is a statement about the checker, never
+            # about /repo: a miss is recorded in the evidence and printed, it does not change the verdict or the exit code.
             from . import calib
-            extra = {'calibration': calib.run_calibration(prop, seed)}
-            c = extra['calibration']
-            if c['break_fired'] != c['break_total'] or c['keep_silent'] != c['keep_total']:
-                raise AnalysisError('calibration failed: ' + json.dumps(c['failures'])[:1500])
+            try:
+                c = calib.run_calibration(prop, seed)
+            except AnalysisError as e_:
+                c = {'break_total': 0, 'break_fired': 0, 'keep_total': 0, 'keep_silent': 0, 'skipped': [], 'failures': [{'kind': 'calibration not run', 'got': str(e_)[:300]}], 'fired': []}
+            extra = {'calibration': c}
+            calib_lines.append(f"CALIBRATION: {c['break_fired']}/{c['break_total']} planted defects reported, {c['keep_silent']}/{c['keep_total']} behaviour-preserving edits silent, "
+                               f"{len(c['skipped'])} not applicable to the current sources")
+            for f_ in c['failures'][:5]:
+                calib_lines.append('CALIBRATION-NOTE: ' + json.dumps(f_, default=str)[:400])
         known = load_known()
         known_hits = []
         new = []
@@ -77,6 +86,7 @@ def check(prop, tier, seed, overlay=None, quiet=False, write=True, only=None):
                 lines.append(f'VIOLATION property={prop} replay={rp}')
         if write:
             write_evidence(prop, tier, seed, ctx, time.time() - t0, len(new), known_hits, extra=extra)
+        lines.extend(calib_lines)
         if not quiet:
             n = len(ctx.obligations)
             lines.insert(0, f'[{prop}] tier={tier} obligations={n} discharged={sum(o.status == DISCHARGED for o in ctx.obligations)} '
